@@ -280,7 +280,7 @@ pub fn c10_check(tier: Tier) -> Outcome {
         cells.push(json!({"family": "opcodes", "lo": k * 4096, "hi": (k + 1) * 4096}));
     }
     // token strings: quick = all strings of <= 5 tokens; thorough = additionally <= 7 tokens after a valid opcode
-    let (free_len, op_len) = if tier == Tier::Quick { (5usize, 0usize) } else { (5usize, 7usize) };
+    let (free_len, op_len) = if tier == Tier::Quick { (5usize, 0usize) } else { (6usize, 8usize) };
     // strings of length 0 and 1 (the one-token strings are re-visited as cell roots below; harmless)
     cells.push(json!({"family": "tokens", "prefix": [], "more": 0}));
     for i in 0..nt {
